@@ -5,6 +5,7 @@ CONSTANTS
   NoShadow = FALSE
   NoPreCheck = FALSE
   XParU = {}
+  ModEnds = "off"
   ShallowSub = TRUE
   IgnoreNs = FALSE
   ModSharedPath = FALSE
